@@ -67,48 +67,19 @@ theorem BoundaryMatcherFull.weaken {find : Matcher} {rep : Bytes} (h : BoundaryM
 /-! ## inversion of the scan, with the reason it went on -/
 
 /-- `C14.scan_cases`, keeping what the scan knows when it goes on: the rest is not empty, does not
-    start with the newline, and `g` is set -/
+    start with the newline, and `g` is set (now `C14.scan_cases_go`; the character is copied after every
+    empty match, `eo ≤ so`, not only after one at the start of the scanned text) -/
 theorem scan_cases' {find : Matcher} {rep : Bytes} {g : Bool} {ln : Bytes} {nb : Bool} {ps : List Piece}
     {rest : Bytes} (h : scan find rep g ln nb = some (ps, rest)) :
     (find ln nb = some none ∧ ps = [] ∧ rest = ln) ∨
     ∃ so eo offs x l ps', find ln nb = some (some (so, eo, offs)) ∧ expandOpt rep ln offs = some x ∧
-      l = (if eo = 0 then Uc.ucLen ((ln.drop eo).headD 0) else 0) ∧ l ≤ (ln.drop eo).length ∧
+      l = (if eo ≤ so then Uc.ucLen ((ln.drop eo).headD 0) else 0) ∧ l ≤ (ln.drop eo).length ∧
       ps = ⟨ln.take so, (ln.take eo).drop so, x, (ln.drop eo).take l⟩ :: ps' ∧
       ((ps' = [] ∧ rest = (ln.drop eo).drop l) ∨
        ((ln.drop eo).drop l ≠ [] ∧ ((ln.drop eo).drop l).headD 0 ≠ 10 ∧ g = true ∧
         ((ln.drop eo).drop l).length < ln.length ∧
-        scan find rep g ((ln.drop eo).drop l) true = some (ps', rest))) := by
-  rw [scan] at h
-  split at h
-  · cases h
-  · rename_i hf; cases h; exact Or.inl ⟨hf, rfl, rfl⟩
-  · rename_i so eo offs hf
-    right
-    split at h
-    · cases h
-    · rename_i x hx
-      simp only [] at h
-      generalize hl : (if eo = 0 then Uc.ucLen ((ln.drop eo).headD 0) else 0) = l at h
-      split at h
-      · cases h
-      · rename_i hle
-        split at h
-        · cases h
-          exact ⟨so, eo, offs, x, l, [], hf, hx, hl.symm, by omega, rfl, Or.inl ⟨rfl, rfl⟩⟩
-        · rename_i hgo
-          split at h
-          · rename_i hlt
-            split at h
-            · cases h
-            · rename_i ps' r' hs
-              cases h
-              refine ⟨so, eo, offs, x, l, ps', hf, hx, hl.symm, by omega, rfl, Or.inr ⟨?_, ?_, ?_, hlt, hs⟩⟩
-              · exact fun hh => hgo (Or.inl hh)
-              · exact fun hh => hgo (Or.inr (Or.inl hh))
-              · cases g
-                · exact absurd (Or.inr (Or.inr rfl)) hgo
-                · rfl
-          · cases h
+        scan find rep g ((ln.drop eo).drop l) true = some (ps', rest))) :=
+  scan_cases_go h
 
 /-! ## U1: the reference scan -/
 
@@ -144,7 +115,7 @@ theorem scan_pieces_valid_on (D : Bytes → Prop) (hD : SuffixClosed D) (find : 
       have hxv : IsU8 x := expandOpt_valid hrep hx hgrp
       -- the character copied after an empty match, and what follows it
       have hch : IsU8 ((ln.drop eo).take l) ∧ IsU8 ((ln.drop eo).drop l) := by
-        by_cases he : eo = 0
+        by_cases he : eo ≤ so
         · rw [if_pos he] at hl
           obtain ⟨_, h2, h3⟩ := isU8_head_char heo.2
           rw [hl]; exact ⟨h2, h3⟩
@@ -212,7 +183,7 @@ theorem scan_matched_valid (find : Matcher) (rep : Bytes) (hm : BoundaryMatcherF
     · obtain ⟨hle, _, hso, heo, _⟩ := hm ln nb so eo offs hln hf
       have hmt : IsU8 ((ln.take eo).drop so) := isU8_slice' hso heo hle
       have hch : IsU8 ((ln.drop eo).drop l) := by
-        by_cases he : eo = 0
+        by_cases he : eo ≤ so
         · rw [if_pos he] at hl
           rw [hl]; exact (isU8_head_char heo.2).2.2
         · rw [if_neg he] at hl
